@@ -172,6 +172,9 @@ def GenesisOK : Op σ → Prop
   | .genesisExec _ amt _ => 0 ≤ amt
   | _ => True
 
+instance (op : Op σ) : Decidable (GenesisOK op) := by
+  cases op <;> unfold GenesisOK <;> infer_instance
+
 /-- amount by which an operation with result `r` is meant to change the supply. -/
 def opSupply : Op σ → Res → Int
   | .mint _ amt, .ok => amt
